@@ -20,7 +20,8 @@ EXPLANATION = (
     "commonpath([realpath(base), realpath(joined)]) == realpath(base), else raises ValueError; absolute inputs are re-rooted; "
     "containment is never a string-prefix test; the absolute branch of _get_arrow_path has the same shape; (R3) "
     "open_parquet_source validates before opening; listings raise on '..'."
-    ' Also: every return of the two sanitisers is sanitised (no prefix-tested fast path).')
+    ' Also: every return of the two sanitisers is sanitised (no prefix-tested fast path).'
+    " (R4) no lexical path normalisation (normpath / abspath) anywhere in the package: '..' reaches the resolver's realpath + boundary check unfolded.")
 NOT_DECIDED = "behaviour of realpath on symlink arrangements at run time; TOCTOU between check and use"
 
 SANITISERS = {"_resolve_path", "_get_arrow_path", "_real_base_path"}
